@@ -256,6 +256,13 @@ inductive LayP : T → List Piece → Prop
       optOk isTupleNameStr name → ItemsP true (f :: fs) items →
       LayP (.tup name (f :: fs))
         (.atom (openText name) :: .nl k1 :: (items ++ [.atom [','], .nl k2, .atom [']']]))
+  | chain {t u : T} {us : List T} {ps rest : List Piece} :
+      isPrim t = true → LayP t ps → TailP (u :: us) rest → LayP (.chain t (u :: us)) (ps ++ rest)
+/-- the further terms of a chain, each behind one space -/
+inductive TailP : List T → List Piece → Prop
+  | nil : TailP [] []
+  | cons {u : T} {us : List T} {ps rest : List Piece} :
+      isPrim u = true → LayP u ps → TailP us rest → TailP (u :: us) (.sp :: (ps ++ rest))
 /-- a field: its value, behind `label:` and a space if it is named (the formatter prints the label
     as ONE text `label: `; the layout keeps the space apart — same text, see `PrintsAs`) -/
 inductive LayF : F → List Piece → Prop
@@ -297,6 +304,29 @@ theorem printsAs_chainDoc {d : Doc} {Lay : List Piece → Prop} (h : PrintsAs d 
   unfold breakIfWiderThan
   split
   · simp only [pl_concat, mkFrames, List.cons_append, List.nil_append]
+    exact h w col i m' st
+  · simp only [pl_concat, mkFrames, List.cons_append, List.nil_append]
+    obtain ⟨ps', ps, col', hp, hr, hl⟩ := h w col i m' (⟨i, m', .breakParent⟩ :: st)
+    exact ⟨ps', ps, col', by rw [hp, pl_bp], hr, hl⟩
+
+/-- what the print lemmas say about a list of documents pushed as frames of one mode -/
+def FramesPrintAs (ds : List Doc) (Lay : List Piece → Prop) : Prop :=
+  ∀ (w col i : Nat) (m : Mode) (st : List Frame),
+    ∃ ps' ps col', printLoop w col (mkFrames i m ds ++ st) [] = ps' ++ printLoop w col' st [] ∧
+      renderPieces ps' = renderPieces ps ∧ Lay ps
+
+/-- `chain_doc`'s wrapping (`concat [prefix, group(break_if_wider_than(concat parts, 50))]`) adds
+    nothing to what the parts print -/
+theorem printsAs_groupChain {ds : List Doc} {Lay : List Piece → Prop} (h : FramesPrintAs ds Lay) :
+    PrintsAs (.concat [.nil, Doc.mkGroup (breakIfWiderThan (.concat ds) chainSoftWidth)]) Lay := by
+  intro w col i m st
+  simp only [pl_concat, mkFrames, List.cons_append, List.nil_append, pl_nil, Doc.mkGroup]
+  obtain ⟨m', hg⟩ := pl_group w col i m st (breakIfWiderThan (.concat ds) chainSoftWidth)
+    (forcesBreak (breakIfWiderThan (.concat ds) chainSoftWidth))
+  rw [hg]
+  unfold breakIfWiderThan
+  split
+  · rw [pl_concat]
     exact h w col i m' st
   · simp only [pl_concat, mkFrames, List.cons_append, List.nil_append]
     obtain ⟨ps', ps, col', hp, hr, hl⟩ := h w col i m' (⟨i, m', .breakParent⟩ :: st)
@@ -393,6 +423,39 @@ theorem printsAs_bracketed {name : Option Str} {f : F} {fs : List F} (hn : optOk
       .atom (openText name) :: .nl (i + 2) :: (items ++ [.atom [','], .nl i, .atom [']']]),
       i + [']'].length, by simp, by simp [renderPieces_append, renderPieces, hr], .brk (i + 2) i hn hi⟩
 
+/-- `chain_doc` of a field value or step -/
+theorem printsAs_chainDocOf {t : T} (h : PrintsAs (termDoc t) (LayP t)) :
+    PrintsAs (if isPrim t = true then chainDoc (termDoc t) else termDoc t) (LayP t) := by
+  split
+  · exact printsAs_chainDoc h
+  · exact h
+
+/-- what the tail lemma says: the parts of `chain_terms_doc` after the first term print the further
+    terms, each behind one space -/
+def TailPrintsAs (prev : Bool) (more : List T) : Prop :=
+  FramesPrintAs (chainParts prev (more.map isIdent) (termDocs more)) (TailP more)
+
+theorem tailPrintsAs_nil (prev : Bool) : TailPrintsAs prev [] := by
+  intro w col i m st
+  exact ⟨[], [], col, by simp [chainParts, termDocs, mkFrames], rfl, .nil⟩
+
+theorem tailPrintsAs_cons {u : T} {us : List T} (hp : isPrim u = true)
+    (hu : PrintsAs (termDoc u) (LayP u)) (ht : TailPrintsAs (isIdent u) us) :
+    TailPrintsAs false (u :: us) := by
+  intro w col i m st
+  simp only [List.map_cons, termDocs, chainParts, Bool.false_eq_true, if_false, List.cons_append,
+    List.nil_append, mkFrames, pl_text]
+  obtain ⟨ps', ps, col1, hq, hr, hl⟩ := hu w (col + [' '].length) i m
+    (mkFrames i m (chainParts (isIdent u) (us.map isIdent) (termDocs us)) ++ st)
+  obtain ⟨rs', rs, col2, hq2, hr2, hrest⟩ := ht w col1 i m st
+  rw [hq, hq2]
+  exact ⟨.atom [' '] :: (ps' ++ rs'), .sp :: (ps ++ rs), col2, by simp,
+    by simp [renderPieces_append, renderPieces, Piece.render, hr, hr2], .cons hp hl hrest⟩
+
+/-- the last term of a non-empty list, as `getLastD` with any default -/
+theorem getLastD_cons_cons (a b : T) (l : List T) (d : T) : (a :: b :: l).getLastD d = (b :: l).getLastD a := by
+  simp [List.getLastD]
+
 mutual
 /-- Whatever the width, the column, the indentation, the mode of the enclosing group and the rest of
     the stack: the engine prints `termDoc t` as one of the layouts of `t`, then goes on with the rest. -/
@@ -422,12 +485,43 @@ theorem printLoop_term : (t : T) → T.WF t → PrintsAs (termDoc t) (LayP t)
     have h := printLoop_items (f :: fs) (by simp) hwf.2
     have := printsAs_bracketed hwf.1 h
     simpa [termDoc] using this
+  | .chain t [], hwf => absurd rfl hwf.1
+  | .chain t (u :: us), hwf => by
+    obtain ⟨_, hpt, hwt, hwm, hok⟩ := hwf
+    simp only [chainOk, Bool.and_eq_true, Bool.not_eq_true'] at hok
+    have hnl : (t :: u :: us).dropLast = t :: (u :: us).dropLast := by simp [List.dropLast]
+    rw [hnl, List.all_cons, Bool.and_eq_true, Bool.not_eq_true'] at hok
+    obtain ⟨⟨hti, hrest⟩, hlast⟩ := hok
+    have ht := printLoop_term t hwt
+    have htail := printLoop_tail (u :: us) hwm hrest
+    simp only [termDoc, multiChainDoc, hlast, Bool.false_and, Bool.false_eq_true, if_false, hti,
+      List.map_cons]
+    refine (printsAs_groupChain ?_)
+    intro w col i m st
+    simp only [mkFrames, List.cons_append]
+    obtain ⟨ps', ps, col1, hq, hr, hl⟩ := ht w col i m
+      (mkFrames i m (chainParts false (isIdent u :: us.map isIdent) (termDocs (u :: us))) ++ st)
+    obtain ⟨rs', rs, col2, hq2, hr2, hrs⟩ := htail w col1 i m st
+    simp only [List.map_cons] at hq2
+    rw [hq, hq2]
+    exact ⟨ps' ++ rs', ps ++ rs, col2, by simp, by simp [renderPieces_append, hr, hr2], .chain hpt hl hrs⟩
+/-- the further terms of a chain (`prev` = false: no term before the last is a call-ender) -/
+theorem printLoop_tail : (more : List T) → T.WFTerms more →
+    (more.dropLast.all fun t => !isIdent t) = true → TailPrintsAs false more
+  | [], _, _ => tailPrintsAs_nil false
+  | [u], hwf, _ => tailPrintsAs_cons hwf.1.1 (printLoop_term u hwf.1.2) (tailPrintsAs_nil _)
+  | u :: v :: vs, hwf, hnl => by
+    have hd : (u :: v :: vs).dropLast = u :: (v :: vs).dropLast := by simp [List.dropLast]
+    rw [hd, List.all_cons, Bool.and_eq_true, Bool.not_eq_true'] at hnl
+    have ht := printLoop_tail (v :: vs) hwf.2 hnl.2
+    refine tailPrintsAs_cons hwf.1.1 (printLoop_term u hwf.1.2) ?_
+    rw [hnl.1]; exact ht
 theorem printLoop_field : (f : F) → F.WF f → PrintsAs (fieldDocOf f) (LayF f)
   | .mk none t, hwf => by
-    have := printsAs_fieldDoc (printsAs_chainDoc (printLoop_term t hwf.2))
+    have := printsAs_fieldDoc (printsAs_chainDocOf (printLoop_term t hwf.2))
     simpa [fieldDocOf] using this.mono (fun ps h => LayF.unnamed h)
   | .mk (some l) t, hwf => by
-    have := printsAs_fieldDoc (printsAs_labelled hwf.1 (printsAs_chainDoc (printLoop_term t hwf.2)))
+    have := printsAs_fieldDoc (printsAs_labelled hwf.1 (printsAs_chainDocOf (printLoop_term t hwf.2)))
     simpa [fieldDocOf] using this
 theorem printLoop_items : (fs : List F) → fs ≠ [] → F.WFList fs → ItemsPrintAs fs
   | [], hne, _ => absurd rfl hne
@@ -512,6 +606,15 @@ theorem layP_tidy : ∀ {t : T} {ps : List Piece}, LayP t ps →
     have h3 : goodAtom [','] = true := by decide
     have := itemsP_tidy hi false (.atom [','] :: .nl k2 :: .atom [']'] :: r) (by simp [tidyPs, okAtom, h2, h3, hr])
     simpa [tidyPs, okAtom, good_open hn] using this
+  | _, _, .chain _ hl ht, b, r, hr => by
+    have := layP_tidy hl b (_ ++ r) (tailP_tidy ht r hr)
+    simpa using this
+theorem tailP_tidy : ∀ {us : List T} {ps : List Piece}, TailP us ps →
+    ∀ (r : List Piece), tidyPs true r = true → tidyPs true (ps ++ r) = true
+  | _, _, .nil, r, hr => by simpa using hr
+  | _, _, .cons _ hl ht, r, hr => by
+    have := layP_tidy hl false (_ ++ r) (tailP_tidy ht r hr)
+    simpa [tidyPs] using this
 theorem layF_tidy : ∀ {f : F} {ps : List Piece}, LayF f ps →
     ∀ (b : Bool) (r : List Piece), tidyPs true r = true → tidyPs b (ps ++ r) = true
   | _, _, .unnamed hl, b, r, hr => layP_tidy hl b r hr
@@ -553,6 +656,12 @@ theorem layP_nulFree : ∀ {t : T} {ps : List Piece}, LayP t ps → nulFree ps =
   | _, _, .brk k1 k2 hn hi => by
     simp only [nulFree, nulFree_append, itemsP_nulFree hi, nulAtom_of_all (nul_open hn), nulAtom_close,
       nulAtom_comma, Bool.and_self]
+  | _, _, .chain _ hl ht => by
+    simp only [nulFree_append, layP_nulFree hl, tailP_nulFree ht, Bool.and_self]
+theorem tailP_nulFree : ∀ {us : List T} {ps : List Piece}, TailP us ps → nulFree ps = true
+  | _, _, .nil => rfl
+  | _, _, .cons _ hl ht => by
+    simp only [nulFree, nulFree_append, layP_nulFree hl, tailP_nulFree ht, Bool.and_self]
 theorem layF_nulFree : ∀ {f : F} {ps : List Piece}, LayF f ps → nulFree ps = true
   | _, _, .unnamed hl => layP_nulFree hl
   | _, _, .named hn hl => by
@@ -592,7 +701,7 @@ def HeadOk (s : Str) : Prop := ∃ c r, s = c :: r ∧ headCls c = true
 
 /-- none of the characters that matter to the white-space and separator parsers starts a layout -/
 theorem headCls_ne {c : Char} (h : headCls c = true) (d : Char)
-    (hd : d.toNat < 34 ∨ d.toNat = 40 ∨ d.toNat = 44 ∨ d.toNat = 47) : c ≠ d := by
+    (hd : d.toNat < 34 ∨ d.toNat = 40 ∨ d.toNat = 44 ∨ d.toNat = 47 ∨ d.toNat = 126) : c ≠ d := by
   intro e; subst e
   simp only [headCls, Bool.or_eq_true, beq_iff_eq, isLower, isUpper, isDigit, Bool.and_eq_true,
     decide_eq_true_eq] at h
@@ -628,23 +737,24 @@ theorem headOk_open {name : Option Str} (hn : optOk isTupleNameStr name) (x : St
   | none => exact ⟨'[', x, rfl, by decide⟩
   | some n => simpa [openText] using (headOk_tupleName hn).append ('[' :: x)
 
-theorem layP_head {t : T} {ps : List Piece} (h : LayP t ps) : HeadOk (renderPieces ps) := by
-  cases h with
-  | leaf hn => simpa [renderPieces, Piece.render] using headOk_ident hn
-  | lit hl =>
+theorem layP_head : ∀ {t : T} {ps : List Piece}, LayP t ps → HeadOk (renderPieces ps)
+  | _, _, .leaf hn => by simpa [renderPieces, Piece.render] using headOk_ident hn
+  | _, _, .lit hl => by
     obtain ⟨c, r, rfl, hc⟩ := lit_head hl
     refine ⟨c, r ++ [], by simp [renderPieces, Piece.render], ?_⟩
     rcases hc with hc | rfl | rfl
     · simp [headCls, hc]
     · decide
     · decide
-  | empty hn =>
-    rename_i name
+  | _, _, .empty (name := name) hn => by
     cases name with
     | none => exact ⟨'[', _, rfl, by decide⟩
     | some n => simpa [renderPieces, Piece.render, emptyText] using headOk_tupleName hn
-  | flat hn _ => exact headOk_open hn _
-  | brk k1 k2 hn _ => exact headOk_open hn _
+  | _, _, .flat hn _ => headOk_open hn _
+  | _, _, .brk k1 k2 hn _ => headOk_open hn _
+  | _, _, .chain _ hl _ => by
+    rw [renderPieces_append]
+    exact (layP_head hl).append _
 
 theorem layF_head {f : F} {ps : List Piece} (h : LayF f ps) : HeadOk (renderPieces ps) := by
   cases h with
@@ -747,6 +857,100 @@ theorem Stop.not {rest : Str} (h : Stop rest) (d : Char)
 theorem Stop.noBody {rest : Str} (h : Stop rest) : ∀ c t, rest = c :: t → isIdentBody c = false := by
   intro c t e; subst e; exact h.1.1
 
+/-! the separator of `chain_inner` -/
+
+theorem sound_hspace1 : Sound hspace1 := by
+  intro i
+  unfold hspace1
+  split
+  · split
+    · exact List.IsSuffix.trans (List.dropWhile_suffix _) (List.suffix_cons _ _)
+    · exact List.suffix_refl _
+  · exact List.suffix_refl _
+
+theorem sound_chainSep : Sound chainSep :=
+  Sound.alt (Sound.seq Sound.ws1 (Sound.seq (Sound.ptag _) Sound.ws1)) sound_hspace1
+
+theorem chainP_sound {term : P T} (h : Sound term) : Sound (chainP term) :=
+  Sound.pmap (Sound.sepList1 sound_chainSep h)
+
+theorem sepList1_cons {α β : Type} {sep : P β} {p : P α} {i r r' : Str} {a : α} {as : List α}
+    (h : p i = .ok a r) (ht : sepTail sep p r = .ok as r') :
+    sepList1 sep p i = .ok (a :: as) r' := by
+  unfold sepTail at ht; simp [sepList1, h, ht]
+
+theorem sepList1_fails {α β : Type} {sep : P β} {p : P α} {i : Str} (h : Fails p i) :
+    Fails (sepList1 sep p) i := by
+  obtain ⟨e, c, h⟩ := h
+  exact ⟨e, c, by simp [sepList1, h]⟩
+
+/-- `~>` does not start a layout -/
+theorem ptag_pipe_fails {s : Str} (h : HeadOk s ∨ s = []) : Fails (ptag ['~', '>']) s := by
+  rcases h with ⟨c, r, rfl, hc⟩ | rfl
+  · exact ptag_fails_of_head rfl (by
+      rw [headAll_cons]; simpa using (headCls_ne hc '~' (by decide)))
+  · exact ⟨[], .tag, by simp [ptag, isPrefix]⟩
+
+/-- one space between two terms of a chain -/
+theorem chainSep_sp {s : Str} (h : HeadOk s) : chainSep (' ' :: s) = .ok () s := by
+  have hws : ws1 (' ' :: s) = .ok () s := by
+    simp [ws1, show isMultispace ' ' = true by decide, headOk_not_ms h]
+  have h1 : Fails (seq ws1 (seq (ptag ['~', '>']) ws1)) (' ' :: s) :=
+    Fails.seq_ok hws (Fails.seq (ptag_pipe_fails (.inl h)))
+  unfold chainSep
+  rw [alt_of_fails h1]
+  obtain ⟨c, r, rfl, hc⟩ := h
+  have hc1 : c ≠ ' ' := headCls_ne hc ' ' (by decide)
+  have hc2 : c ≠ '\t' := headCls_ne hc '\t' (by decide)
+  simp [hspace1, Parse.isHspace, hc1, hc2]
+
+/-- What may follow a CHAIN: what may follow a term, and nothing the chain separator would accept. -/
+def StopC (rest : Str) : Prop := Stop rest ∧ Fails chainSep rest
+
+theorem chainSep_fails_of_head {c : Char} {r : Str} (h : isMultispace c = false) : Fails chainSep (c :: r) := by
+  have h1 : Fails ws1 (c :: r) := ⟨c :: r, .multispace, by simp [ws1, h]⟩
+  have h2 : Fails hspace1 (c :: r) := by
+    refine ⟨c :: r, .space, ?_⟩
+    have : Parse.isHspace c = false := by
+      simp only [isMultispace, Bool.or_eq_false_iff, decide_eq_false_iff_not] at h
+      simp [Parse.isHspace, h.1.1.1, h.1.1.2]
+    simp [hspace1, this]
+  exact Fails.alt (Fails.seq h1) h2
+
+theorem chainSep_fails_nil : Fails chainSep [] :=
+  Fails.alt (Fails.seq ⟨[], .multispace, by simp [ws1]⟩) ⟨[], .space, by simp [hspace1]⟩
+
+/-- a line break (with the next line's indentation) ends a chain unless `~>` follows -/
+theorem chainSep_fails_nl (k : Nat) {s : Str} (h : HeadOk s ∨ s = []) :
+    Fails chainSep ('\n' :: (List.replicate k ' ' ++ s)) := by
+  have hdrop : (List.replicate k ' ' ++ s).dropWhile isMultispace = s := by
+    induction k with
+    | zero =>
+      rcases h with h | rfl
+      · simpa using headOk_not_ms h
+      · rfl
+    | succ k ih =>
+      rw [List.replicate_succ, List.cons_append, List.dropWhile_cons, show isMultispace ' ' = true by decide]
+      simpa using ih
+  have hws : ws1 ('\n' :: (List.replicate k ' ' ++ s)) = .ok () s := by
+    simp [ws1, show isMultispace '\n' = true by decide, hdrop]
+  refine Fails.alt (Fails.seq_ok hws (Fails.seq (ptag_pipe_fails h))) ?_
+  exact ⟨'\n' :: (List.replicate k ' ' ++ s), .space, by simp [hspace1, Parse.isHspace]⟩
+
+theorem stopC_comma (r : Str) : StopC (',' :: r) := ⟨stop_comma r, chainSep_fails_of_head (by decide)⟩
+theorem stopC_close (r : Str) : StopC (']' :: r) := ⟨stop_close r, chainSep_fails_of_head (by decide)⟩
+theorem stopC_nil : StopC [] := ⟨stop_nil, chainSep_fails_nil⟩
+theorem stopC_nl : StopC ['\n'] := ⟨stop_nl, by simpa using chainSep_fails_nl 0 (s := []) (.inr rfl)⟩
+
+/-- a single term is a chain -/
+theorem chainP_prim {term : P T} {i rest : Str} {t : T} (h : term i = .ok t rest)
+    (hend : Fails chainSep rest) : chainP term i = .ok t rest := by
+  unfold chainP
+  rw [pmap_ok (sepList1_cons h (sepTail_of_fails hend))]
+
+theorem chainP_fails {term : P T} {i : Str} (h : Fails term i) : Fails (chainP term) i :=
+  Fails.pmap (sepList1_fails h)
+
 theorem sound_commaWsc : Sound commaWsc :=
   Sound.seq Sound.wsc (Sound.seq (Sound.pchar _) Sound.wsc)
 
@@ -804,7 +1008,7 @@ theorem termP_sound : ∀ n, Sound (termP n)
   | 0 => fun _ => trivial
   | n + 1 =>
     Sound.alt sound_stringP (Sound.alt sound_literalP
-      (Sound.alt (tupleP_sound (fieldP_sound (termP_sound n))) (Sound.pmap Sound.identifier)))
+      (Sound.alt (tupleP_sound (fieldP_sound (chainP_sound (termP_sound n)))) (Sound.pmap Sound.identifier)))
 
 /-- `string_term` fails on a text that does not start with a quote -/
 theorem stringP_fails {s : Str} (h : headAll (· ≠ '"') s = true) : Fails stringP s := by
@@ -858,7 +1062,7 @@ theorem literalP_fails {s : Str} (h : headAll (fun c => !isDigit c && c != '-' &
 
 /-- `primary` on a text that is not a literal -/
 theorem termP_notLit {n : Nat} {s : Str} (h : headAll (fun c => !isDigit c && c != '-' && c != '"') s = true) :
-    termP (n + 1) s = alt (tupleP (fieldP (termP n))) (pmap identifier T.leaf) s := by
+    termP (n + 1) s = alt (tupleP (fieldP (chainP (termP n)))) (pmap identifier T.leaf) s := by
   show alt stringP (alt literalP _) s = _
   rw [alt_of_fails (stringP_fails (notLit_split h).2), alt_of_fails (literalP_fails h)]
 
@@ -923,7 +1127,7 @@ theorem termP_fails_nil (n : Nat) : Fails (termP (n + 1)) [] :=
   Fails.alt (stringP_fails rfl) (Fails.alt (literalP_fails rfl)
     (Fails.alt (tupleP_fails rfl rfl) (Fails.pmap (identifier_fails_of_head rfl))))
 
-theorem fieldP_fails_close (n : Nat) (rest : Str) : Fails (fieldP (termP (n + 1))) (']' :: rest) :=
+theorem fieldP_fails_close (n : Nat) (rest : Str) : Fails (fieldP (chainP (termP (n + 1)))) (']' :: rest) :=
   Fails.alt (Fails.bind (identifier_fails_of_head (by rw [headAll_cons]; decide)))
     (Fails.pmap (termP_fails_close n rest))
 
@@ -1181,11 +1385,12 @@ theorem termP_lit {t : T} {s rest : Str} (h : LitText t s) (hs : Stop rest) (n :
 
 /-- what `items_lay` provides: the first item, then the loop of `separated_list0` over the others -/
 def ItemsRead (n : Nat) (fs : List F) (s rest : Str) : Prop :=
-  ∃ f fs' r1, fs = f :: fs' ∧ fieldP (termP n) (s ++ rest) = .ok f r1 ∧
-    sepTail commaWsc (fieldP (termP n)) r1 = .ok fs' rest
+  ∃ f fs' r1, fs = f :: fs' ∧ fieldP (chainP (termP n)) (s ++ rest) = .ok f r1 ∧
+    sepTail commaWsc (fieldP (chainP (termP n))) r1 = .ok fs' rest
 
 /-- the named-field alternative fails on an unnamed field (at the first character, or at the `:`) -/
-theorem namedAlt_fails {term : P T} {t : T} {ps : List Piece} {rest : Str} (h : LayP t ps) (hs : Stop rest) :
+theorem namedAlt_fails_prim {term : P T} {t : T} {ps : List Piece} {rest : Str} (h : LayP t ps)
+    (hprim : isPrim t = true) (hs : Stop rest) :
     Fails (bind identifier fun n => seq (pchar ':') (seq ws1 (pmap term (F.mk (some n)))))
       (renderPieces ps ++ rest) := by
   have hcolon : Fails (pchar ':') rest := by
@@ -1230,6 +1435,42 @@ theorem namedAlt_fails {term : P T} {t : T} {ps : List Piece} {rest : Str} (h : 
   | brk k1 k2 hn _ =>
     simp only [renderPieces, Piece.render, List.append_assoc]
     exact Fails.bind (hopen _ hn)
+  | chain _ _ _ => simp [isPrim] at hprim
+
+/-- a term may be followed by a space and another term -/
+theorem stop_sp {s : Str} (h : HeadOk s) : Stop (' ' :: s) := by
+  refine ⟨by simp [IdStop]; decide, by rw [headAll_cons]; decide, ?_⟩
+  rw [List.dropWhile_cons, show isMultispace ' ' = true by decide]
+  simp only [if_true]
+  rw [headOk_not_ms h]
+  obtain ⟨c, r, rfl, hc⟩ := h
+  rw [headAll_cons]
+  simpa using headCls_ne hc '(' (by decide)
+
+theorem tailP_stop {us : List T} {ps : List Piece} (h : TailP us ps) {rest : Str} (hs : Stop rest) :
+    Stop (renderPieces ps ++ rest) := by
+  cases h with
+  | nil => simpa [renderPieces] using hs
+  | @cons u us ps0 rest0 _ hl _ =>
+    have := stop_sp (((layP_head hl).append (renderPieces rest0)).append rest)
+    simpa [renderPieces, Piece.render, renderPieces_append] using this
+
+/-- the named-field alternative fails on any unnamed field value -/
+theorem namedAlt_fails {term : P T} {t : T} {ps : List Piece} {rest : Str} (h : LayP t ps) (hs : Stop rest) :
+    Fails (bind identifier fun n => seq (pchar ':') (seq ws1 (pmap term (F.mk (some n)))))
+      (renderPieces ps ++ rest) := by
+  cases hp : isPrim t with
+  | true => exact namedAlt_fails_prim h hp hs
+  | false =>
+    cases h with
+    | chain hpt hl ht =>
+      rw [renderPieces_append, List.append_assoc]
+      exact namedAlt_fails_prim hl hpt (tailP_stop ht hs)
+    | leaf _ => simp [isPrim] at hp
+    | lit hl => cases hl <;> simp [isPrim] at hp
+    | empty _ => simp [isPrim] at hp
+    | flat _ _ => simp [isPrim] at hp
+    | brk _ _ _ _ => simp [isPrim] at hp
 
 theorem idStop_colon (r : Str) : IdStop (':' :: r) := by simp [IdStop]; decide
 
@@ -1242,9 +1483,9 @@ theorem openText_length (name : Option Str) : 0 < (openText name).length := by s
 mutual
 /-- The fragment parser reads every layout of `t` back as `t` (with enough fuel for the text, and
     provided what follows cannot be taken for a continuation of the term, `Stop`). -/
-theorem termP_lay : ∀ {t : T} {ps : List Piece}, LayP t ps → ∀ (n : Nat) (rest : Str),
+theorem termP_lay : ∀ {t : T} {ps : List Piece}, LayP t ps → isPrim t = true → ∀ (n : Nat) (rest : Str),
     (renderPieces ps).length < n → Stop rest → termP n (renderPieces ps ++ rest) = .ok t rest
-  | _, _, .leaf (n := name) hn, n, rest, hlen, hstop => by
+  | _, _, .leaf (n := name) hn, _, n, rest, hlen, hstop => by
     cases n with
     | zero => omega
     | succ n =>
@@ -1262,13 +1503,14 @@ theorem termP_lay : ∀ {t : T} {ps : List Piece}, LayP t ps → ∀ (n : Nat) (
             simp only [isUpper, isLower, Bool.and_eq_true, decide_eq_true_eq] at this ⊢
             simp only [Bool.and_eq_false_iff, decide_eq_false_iff_not]
             omega
-  | _, _, .lit hl, n, rest, hlen, hstop => by
+  | _, _, .chain _ _ _, hp, _, _, _, _ => by simp [isPrim] at hp
+  | _, _, .lit hl, _, n, rest, hlen, hstop => by
     cases n with
     | zero => omega
     | succ n =>
       simp only [renderPieces, Piece.render, List.append_nil]
       exact termP_lit hl hstop n
-  | _, _, .empty (name := name) hn, n, rest, hlen, hstop => by
+  | _, _, .empty (name := name) hn, _, n, rest, hlen, hstop => by
     cases n with
     | zero => omega
     | succ n =>
@@ -1288,7 +1530,7 @@ theorem termP_lay : ∀ {t : T} {ps : List Piece}, LayP t ps → ∀ (n : Nat) (
             (bracketsP_ok (o := none) (wsc_of_head (headOk_close rest))
               (sepList0_of_fails (fieldP_fails_close n rest)) (.inl ?_)))
           exact opt_of_fails (Fails.seq_ok (wsc_of_head (headOk_close rest)) (pchar_ne (by decide) rest))
-  | _, _, .flat (name := name) (items := items) hn hi, n, rest, hlen, _ => by
+  | _, _, .flat (name := name) (items := items) hn hi, _, n, rest, hlen, _ => by
     cases n with
     | zero => omega
     | succ n =>
@@ -1299,13 +1541,13 @@ theorem termP_lay : ∀ {t : T} {ps : List Piece}, LayP t ps → ∀ (n : Nat) (
         have := openText_length name
         simp [renderPieces, Piece.render, renderPieces_append] at hlen; omega
       rw [hs]
-      obtain ⟨f', fs', r1, heq, hf, ht⟩ := items_lay hi n (']' :: rest) hl (stop_close rest)
+      obtain ⟨f', fs', r1, heq, hf, ht⟩ := items_lay hi n (']' :: rest) hl (stopC_close rest)
         (sepTail_of_fails (commaWsc_fails_close rest))
       rw [termP_notLit (notLit_open hn _)]
       refine alt_of_ok (tupleP_open hn (bracketsP_ok (o := none) (wsc_headOk ((itemsP_head hi).append _))
         (by rw [heq]; exact sepList0_cons hf ht) (.inl ?_)))
       exact opt_of_fails (Fails.seq_ok (wsc_of_head (headOk_close rest)) (pchar_ne (by decide) rest))
-  | _, _, .brk (name := name) (items := items) k1 k2 hn hi, n, rest, hlen, _ => by
+  | _, _, .brk (name := name) (items := items) k1 k2 hn hi, _, n, rest, hlen, _ => by
     cases n with
     | zero => omega
     | succ n =>
@@ -1321,11 +1563,11 @@ theorem termP_lay : ∀ {t : T} {ps : List Piece}, LayP t ps → ∀ (n : Nat) (
       cases n with
       | zero => omega
       | succ m =>
-        have hend : sepTail commaWsc (fieldP (termP (m + 1)))
+        have hend : sepTail commaWsc (fieldP (chainP (termP (m + 1))))
               (',' :: '\n' :: (List.replicate k2 ' ' ++ ']' :: rest)) =
             .ok [] (',' :: '\n' :: (List.replicate k2 ' ' ++ ']' :: rest)) :=
           sepTail_item_fails (commaWsc_nl_close k2 rest) (by simp; omega) (fieldP_fails_close m rest)
-        obtain ⟨f', fs', r1, heq, hf, ht⟩ := items_lay hi (m + 1) _ hl (stop_comma _) hend
+        obtain ⟨f', fs', r1, heq, hf, ht⟩ := items_lay hi (m + 1) _ hl (stopC_comma _) hend
         rw [termP_notLit (notLit_open hn _)]
         refine alt_of_ok (tupleP_open hn (bracketsP_ok (o := some ())
           (wsc_nl_headOk k1 ((itemsP_head hi).append _))
@@ -1335,12 +1577,44 @@ theorem termP_lay : ∀ {t : T} {ps : List Piece}, LayP t ps → ∀ (n : Nat) (
         · rw [seq_ok (r := ']' :: rest) (a := ())
             (by simp [wsc, skipWsc_nl, skipWsc_of_head (headOk_close rest)])]
           exact pchar_self ']' rest
+/-- `chain` reads the layout of a chain of several terms back -/
+theorem chain_lay : ∀ {t : T} {ps : List Piece}, LayP t ps → isPrim t = false → ∀ (n : Nat) (rest : Str),
+    (renderPieces ps).length < n → StopC rest → chainP (termP n) (renderPieces ps ++ rest) = .ok t rest
+  | _, _, .chain (ps := ps) (rest := rs) hp hl ht, _, n, rest, hlen, hs => by
+    have hl1 : (renderPieces ps).length < n ∧ (renderPieces rs).length < n := by
+      simp [renderPieces_append] at hlen; omega
+    rw [renderPieces_append, List.append_assoc]
+    unfold chainP
+    rw [pmap_ok (sepList1_cons (termP_lay hl hp n _ hl1.1 (tailP_stop ht hs.1)) (tail_lay ht n rest hl1.2 hs))]
+  | _, _, .leaf _, hp, _, _, _, _ => by simp [isPrim] at hp
+  | _, _, .lit hl, hp, _, _, _, _ => by cases hl <;> simp [isPrim] at hp
+  | _, _, .empty _, hp, _, _, _, _ => by simp [isPrim] at hp
+  | _, _, .flat _ _, hp, _, _, _, _ => by simp [isPrim] at hp
+  | _, _, .brk _ _ _ _, hp, _, _, _, _ => by simp [isPrim] at hp
+/-- the loop of `separated_list1(chainSep, primary)` over the further terms -/
+theorem tail_lay : ∀ {us : List T} {ps : List Piece}, TailP us ps → ∀ (n : Nat) (rest : Str),
+    (renderPieces ps).length < n → StopC rest →
+    sepTail chainSep (termP n) (renderPieces ps ++ rest) = .ok us rest
+  | _, _, .nil, n, rest, _, hs => by
+    simpa [renderPieces] using sepTail_of_fails (p := termP n) hs.2
+  | _, _, .cons (ps := ps) (rest := rs) hp hl ht, n, rest, hlen, hs => by
+    have hsplit : renderPieces (.sp :: (ps ++ rs)) ++ rest =
+        ' ' :: (renderPieces ps ++ (renderPieces rs ++ rest)) := by
+      simp [renderPieces, Piece.render, renderPieces_append]
+    have hl1 : (renderPieces ps).length < n ∧ (renderPieces rs).length < n := by
+      simp [renderPieces, Piece.render, renderPieces_append] at hlen; omega
+    rw [hsplit]
+    exact sepTail_cons sound_chainSep (termP_sound n) (chainSep_sp ((layP_head hl).append _))
+      (by simp) (termP_lay hl hp n _ hl1.1 (tailP_stop ht hs.1)) (tail_lay ht n rest hl1.2 hs)
 theorem fieldP_lay : ∀ {f : F} {ps : List Piece}, LayF f ps → ∀ (n : Nat) (rest : Str),
-    (renderPieces ps).length < n → Stop rest → fieldP (termP n) (renderPieces ps ++ rest) = .ok f rest
+    (renderPieces ps).length < n → StopC rest → fieldP (chainP (termP n)) (renderPieces ps ++ rest) = .ok f rest
   | _, _, .unnamed hl, n, rest, hlen, hstop => by
     unfold fieldP
-    rw [alt_of_fails (namedAlt_fails hl hstop)]
-    exact pmap_ok (termP_lay hl n rest hlen hstop)
+    rw [alt_of_fails (namedAlt_fails hl hstop.1)]
+    refine pmap_ok ?_
+    cases hp : isPrim _ with
+    | true => exact chainP_prim (termP_lay hl hp n rest hlen hstop.1) hstop.2
+    | false => exact chain_lay hl hp n rest hlen hstop
   | _, _, .named (l := l) (ps := ps) hn hl, n, rest, hlen, hstop => by
     have hs : renderPieces (.atom (l ++ [':']) :: .sp :: ps) ++ rest =
         l ++ (':' :: ' ' :: (renderPieces ps ++ rest)) := by
@@ -1354,10 +1628,13 @@ theorem fieldP_lay : ∀ {f : F} {ps : List Piece}, LayF f ps → ∀ (n : Nat) 
     have hws : ws1 (' ' :: (renderPieces ps ++ rest)) = .ok () (renderPieces ps ++ rest) := by
       simp [ws1, show isMultispace ' ' = true by decide, headOk_not_ms ((layP_head hl).append rest)]
     rw [seq_ok hws]
-    exact pmap_ok (termP_lay hl n rest hl1 hstop)
+    refine pmap_ok ?_
+    cases hp : isPrim _ with
+    | true => exact chainP_prim (termP_lay hl hp n rest hl1 hstop.1) hstop.2
+    | false => exact chain_lay hl hp n rest hl1 hstop
 theorem items_lay : ∀ {bk : Bool} {fs : List F} {ps : List Piece}, ItemsP bk fs ps →
-    ∀ (n : Nat) (rest : Str), (renderPieces ps).length < n → Stop rest →
-    sepTail commaWsc (fieldP (termP n)) rest = .ok [] rest → ItemsRead n fs (renderPieces ps) rest
+    ∀ (n : Nat) (rest : Str), (renderPieces ps).length < n → StopC rest →
+    sepTail commaWsc (fieldP (chainP (termP n))) rest = .ok [] rest → ItemsRead n fs (renderPieces ps) rest
   | _, _, _, .one (f := f) hl, n, rest, hlen, hstop, hend =>
     ⟨f, [], rest, rfl, fieldP_lay hl n rest hlen hstop, hend⟩
   | _, _, _, .consFlat (f := f) (ps := ps) (rest := restp) hl hi, n, rest, hlen, hstop, hend => by
@@ -1369,8 +1646,8 @@ theorem items_lay : ∀ {bk : Bool} {fs : List F} {ps : List Piece}, ItemsP bk f
     obtain ⟨g', fs', r1, heq, hg, ht⟩ := items_lay hi n rest hl1.2 hstop hend
     unfold ItemsRead
     refine ⟨f, g' :: fs', ',' :: ' ' :: (renderPieces restp ++ rest), by rw [heq], ?_, ?_⟩
-    · rw [hs]; exact fieldP_lay hl n _ hl1.1 (stop_comma _)
-    · exact sepTail_cons sound_commaWsc (fieldP_sound (termP_sound n))
+    · rw [hs]; exact fieldP_lay hl n _ hl1.1 (stopC_comma _)
+    · exact sepTail_cons sound_commaWsc (fieldP_sound (chainP_sound (termP_sound n)))
         (commaWsc_sp ((itemsP_head hi).append rest)) (by simp; omega) hg ht
   | _, _, _, .consBrk (f := f) (ps := ps) (rest := restp) k hl hi, n, rest, hlen, hstop, hend => by
     have hs : renderPieces (ps ++ .atom [','] :: .nl k :: restp) ++ rest =
@@ -1382,9 +1659,18 @@ theorem items_lay : ∀ {bk : Bool} {fs : List F} {ps : List Piece}, ItemsP bk f
     unfold ItemsRead
     refine ⟨f, g' :: fs', ',' :: '\n' :: (List.replicate k ' ' ++ (renderPieces restp ++ rest)),
       by rw [heq], ?_, ?_⟩
-    · rw [hs]; exact fieldP_lay hl n _ hl1.1 (stop_comma _)
-    · exact sepTail_cons sound_commaWsc (fieldP_sound (termP_sound n))
+    · rw [hs]; exact fieldP_lay hl n _ hl1.1 (stopC_comma _)
+    · exact sepTail_cons sound_commaWsc (fieldP_sound (chainP_sound (termP_sound n)))
         (commaWsc_nl k ((itemsP_head hi).append rest)) (by simp; omega) hg ht
 end
+
+/-- `chain` reads a layout of a field value or step back: a term, or a chain of several terms -/
+theorem chainP_lay {t : T} {ps : List Piece} (h : LayP t ps) (n : Nat) (rest : Str)
+    (hlen : (renderPieces ps).length < n) (hs : StopC rest) :
+    chainP (termP n) (renderPieces ps ++ rest) = .ok t rest := by
+  cases hp : isPrim t with
+  | true => exact chainP_prim (termP_lay h hp n rest hlen hs.1) hs.2
+  | false => exact chain_lay h hp n rest hlen hs
+
 
 end QM.Frag
